@@ -93,18 +93,18 @@ type SeamEvent struct {
 
 // Transport implements mq.Client.
 type Transport struct {
-	s        *Sim
-	subs     map[string]*tSub
-	subGen   map[string]int
-	reqs     []*Req
-	reqCount map[string]int
-	fifos    map[string][]*Msg
-	bag      []*Msg
-	msgN     int
-	closed   bool
+	s         *Sim
+	subs      map[string]*tSub
+	subGen    map[string]int
+	reqs      []*Req
+	reqCount  map[string]int
+	fifos     map[string][]*Msg
+	bag       []*Msg
+	msgN      int
+	closed    bool
 	connected bool
-	onClosed func(error)
-	Log      []SeamEvent
+	onClosed  func(error)
+	Log       []SeamEvent
 	// last time (fake ns) at which a name was in use, for C09.d
 	unsubLog []SeamEvent
 }
